@@ -47,6 +47,7 @@ func cmdChild(args []string) {
 	killAt := fs.Int("kill-at", -1, "SIGKILL self before event k of the transaction window of block <until>")
 	killAfter := fs.Bool("kill-after-commit", false, "SIGKILL self right after COMMIT of block <until> returned")
 	failAt := fs.Int("fail-at", -1, "make event k of block <until> fail once")
+	faultH := fs.Uint("fault-h", 0, "height whose transaction window -kill-at / -fail-at / -events refer to (default: <until>)")
 	wal := fs.Bool("wal", false, "WAL mode")
 	nohf := fs.Bool("no-hf", false, "disable hard fork check")
 	retry := fs.Duration("retry", 5*time.Millisecond, "sync retry period")
@@ -87,6 +88,10 @@ func cmdChild(args []string) {
 	rep.Start = n.Sync.Synced
 	rep.Committed = n.Sync.Synced
 	target := uint32(*until)
+	fh := uint32(*faultH)
+	if fh == 0 {
+		fh = target
+	}
 	if target <= rep.Start {
 		finish(0)
 	}
@@ -101,7 +106,7 @@ func cmdChild(args []string) {
 			curH = rep.Committed + 1
 			idx = 0
 			rep.Begins++
-			if *events && curH == target {
+			if *events && curH == fh {
 				rep.Events = nil
 			}
 		}
@@ -121,7 +126,7 @@ func cmdChild(args []string) {
 			curH = 0
 			return nil
 		}
-		if curH == target {
+		if curH == fh {
 			if *events {
 				w := ""
 				if ev.Write {
